@@ -118,6 +118,9 @@ PRESETS = {
     'soft-restarts': (False, {'restarts.use_restarts': True, 'restarts.use_soft_restarts': True, 'restarts.soft.num_geom_steps': 1,
                               'restarts.auto_detect': False}),
     'soft-restarts-autodetect': (False, {'restarts.use_restarts': True, 'restarts.use_soft_restarts': True, 'restarts.soft.num_geom_steps': 1}),
+    'soft-restarts-increase-npt': (False, {'restarts.use_restarts': True, 'restarts.use_soft_restarts': True, 'restarts.soft.num_geom_steps': 1,
+                                           'restarts.auto_detect': False, 'restarts.increase_npt': True, 'restarts.increase_npt_amt': 2,
+                                           'restarts.max_npt': 'NPT+1'}),
     'soft-restarts-2geom': (False, {'restarts.use_restarts': True, 'restarts.use_soft_restarts': True, 'restarts.soft.num_geom_steps': 2,
                                     'restarts.auto_detect': False}),
     'soft-restarts-moreopts': (False, {'restarts.use_restarts': True, 'restarts.use_soft_restarts': True,
@@ -137,6 +140,8 @@ def mk_params(E, n, npt, maxfun, preset='default', small_history=True):
     noise, over = PRESETS[preset]
     P = E.get('ParameterList')(n, npt, maxfun, objfun_has_noise=noise)
     for k, v in over.items():
+        if v == 'NPT+1':
+            v = npt + 1
         P(k, new_value=v)
     if small_history:
         # bounded configuration: short histories (user-settable parameters) keep list lengths concrete and small
